@@ -90,6 +90,7 @@ MUTANTS = [
         tree = self.scan_node(Node("", data, "", 0, len(data)), depth_limit)
         self._busy = False
         return tree''')]),
+    ("c09-path-keyed-keyword-cache", "C09", [(M + "registry.py", "def get_keywords(directory: str = \"\") -> Registry:\n    \"\"\"Get keyword search functions from a directory\"\"\"\n", "_KEYWORD_CACHE: dict = {}\n\n\ndef get_keywords(directory: str = \"\") -> Registry:\n    \"\"\"Get keyword search functions from a directory\"\"\"\n    key = os.path.realpath(directory) if directory else \"\"\n    if key not in _KEYWORD_CACHE:\n        _KEYWORD_CACHE[key] = tuple(_load_keywords(directory))\n    return list(_KEYWORD_CACHE[key])\n\n\ndef _load_keywords(directory: str = \"\") -> Registry:\n")]),
     # ---------------- C18
     ("c18-exclude-inverted", "C18", [(M + "registry.py", "if exclude and submod_info.name in exclude:", "if exclude and submod_info.name not in exclude:")]),
     ("c18-include-only-without-exclude", "C18", [(M + "registry.py", "if include and submod_info.name not in include:", "if include and not exclude and submod_info.name not in include:")]),
@@ -144,7 +145,6 @@ BENIGN = [
         (M + "multidecoder.py", "        self.decoders = decoders if decoders else build_registry()\n", "        self.decoders = decoders if decoders else build_registry()\n        self._lock = threading.RLock()\n"),
         (M + "multidecoder.py", '''        return self.scan_node(Node("", data, "", 0, len(data)), depth_limit)''', '''        with self._lock:
             return self.scan_node(Node("", data, "", 0, len(data)), depth_limit)''')]),
-    ("benign-keyword-cache-copied", "C09", [(M + "registry.py", "def get_keywords(directory: str = \"\") -> Registry:\n    \"\"\"Get keyword search functions from a directory\"\"\"\n", "_KEYWORD_CACHE: dict = {}\n\n\ndef get_keywords(directory: str = \"\") -> Registry:\n    \"\"\"Get keyword search functions from a directory\"\"\"\n    key = os.path.realpath(directory) if directory else \"\"\n    if key not in _KEYWORD_CACHE:\n        _KEYWORD_CACHE[key] = tuple(_load_keywords(directory))\n    return list(_KEYWORD_CACHE[key])\n\n\ndef _load_keywords(directory: str = \"\") -> Registry:\n")]),
     ("benign-keyword-cache-copied-c18", "C18", [(M + "registry.py", "def get_keywords(directory: str = \"\") -> Registry:\n    \"\"\"Get keyword search functions from a directory\"\"\"\n", "_KEYWORD_CACHE: dict = {}\n\n\ndef get_keywords(directory: str = \"\") -> Registry:\n    \"\"\"Get keyword search functions from a directory\"\"\"\n    key = os.path.realpath(directory) if directory else \"\"\n    if key not in _KEYWORD_CACHE:\n        _KEYWORD_CACHE[key] = tuple(_load_keywords(directory))\n    return list(_KEYWORD_CACHE[key])\n\n\ndef _load_keywords(directory: str = \"\") -> Registry:\n")]),
     ("benign-new-decoder", "C18", [(M + "decoders/reverse.py", "@decoder\ndef find_reverse(", "@decoder\ndef find_nothing(data: bytes) -> list[Node]:\n    \"\"\"A new decoder that never matches\"\"\"\n    return []\n\n\n@decoder\ndef find_reverse(")]),
     ("benign-decoders-sorted-by-name", "C18", [(M + "registry.py", "    return decoders\n", "    return sorted(decoders, key=lambda f: (f.__module__, f.__name__))\n")]),
